@@ -628,3 +628,27 @@ def run(ctx):
     if n9 < 10:
         r9.fail('anchor/grammar', 'src/xray.pest', 'fewer ordered choices than expected in the grammar (%d)' % n9)
     r9.need(1)
+
+    auto_flag_discipline(ctx)
+
+
+def auto_flag_discipline(ctx):
+    """R12.10: the auto type `$` is legal only as a whole turbofish slot.  get_complete_type receives that permission as a flag; every
+    recursive call of get_complete_type (for tuple components, generic arguments, parameter and return types of a function type)
+    passes the constant false, so that an Auto never ends up inside another type -- where later stages (overload binding, type
+    rendering: `XType::Auto => unreachable!()`) do not expect it."""
+    mir = ctx.mir
+    r10 = ctx.rule('R12.10', 'the auto-type permission is never passed on to the component types of a type')
+    fam = [b for b in mir.bodies if re.search(r'::get_complete_type(::\{closure#\d+\})*$', b.nid)]
+    if not fam:
+        r10.fail('anchor/get_complete_type', 'src/parser.rs', 'get_complete_type not found')
+    for b in fam:
+        for bb, t in b.calls():
+            if not strip_generics(t.get('callee') or '').endswith('::get_complete_type') or len(t['args']) < 6:
+                continue
+            a = t['args'][5]
+            ok = 'const' in a and a['const'].get('bool') is False
+            r10.inst({'recursive_call': mirq.site(b, bb), 'auto_allowed': a['const'].get('s') if 'const' in a else 'not a constant'}, ok=ok, kind=(b.nid, bb))
+            if not ok:
+                r10.fail('get_complete_type/auto-inherited', mirq.site(b, bb), 'a component type is parsed with the caller\'s auto permission: `$` nested inside a type (foo{Optional<$>}) is accepted, reaches overload binding, and rendering it in an error message hits unreachable!()')
+    r10.need(3)
